@@ -1,6 +1,7 @@
 import CpModel.Proto
 import CpModel.MultipartR
 import CpModel.MultipartHdr
+import CpModel.MultipartN
 /-!
   Driver for C04 (multipart parser).  One case per line, three fields:
 
@@ -37,12 +38,16 @@ def showPoints (ps : List Nat) : String :=
 def showHdrs (hs : List (Bytes × Bytes)) : String :=
   if hs.isEmpty then "-" else ";".intercalate ((headersOut hs).map fun (k, v) => Proto.hex k ++ ":" ++ Proto.hex v)
 
-def showEntry (e : Option FormEntry) : String :=
+/-- decoded text; `T=` when it is the content read as Latin-1 (pure ASCII content, mostly) -/
+def showText (t : List Nat) (content : Bytes) : String :=
+  if t = content.map (·.toNat) then "T=" else "T" ++ showPoints t
+
+def showEntry (e : Option FormEntry) (content : Bytes) : String :=
   match e with
   | none => "U"
   | some .kept => "K"
   | some .file => "F"
-  | some (.field t) => "T" ++ showPoints t
+  | some (.field t) => showText t content
 
 def showPartX (p : RawPart) : String :=
   match partInfoX p.headers with
@@ -50,8 +55,8 @@ def showPartX (p : RawPart) : String :=
   | .ok i =>
     let fn := match i.filename with | none => "N" | some f => showPoints f
     s!" {showHdrs p.headers} {fn} {optHex i.charset} {Proto.hex (partProc i.ctype)} " ++
-    s!"{if storedInFile i.filename p.spilled then 1 else 0} {showEntry (formEntry i p.content)} " ++
-    (match decodeField (attemptCharsets i.charset) p.content with | none => "U" | some t => "T" ++ showPoints t)
+    s!"{if storedInFile i.filename p.spilled then 1 else 0} {showEntry (formEntry i p.content) p.content} " ++
+    (match decodeField (attemptCharsets i.charset) p.content with | none => "U" | some t => showText t p.content)
 
 def foldHdrs : List Bytes → Option Bytes → List (Bytes × Bytes) → Option (List (Bytes × Bytes))
   | [], _, hs => some hs
@@ -94,9 +99,13 @@ def step (line : String) : String :=
     match Proto.unhex? b, m.toNat?, bufsize.toNat?, Proto.optNat? len, parseNats frag, Proto.unhex? conn with
     | some b, some m, some bufsize, some len, some frag, some conn =>
       let cfg : Cfg := { length := len, maxbytes := none, bufsize := bufsize }
-      match processMultipartR cfg b m conn frag with
+      match processMultipartN cfg b m conn frag with
       | .error e => "err:" ++ showErr e
-      | .ok (parts, st) =>
+      | .ok (parts, stop, st) =>
+        let parts := parts ++ (match stop with
+          | .none_ => []
+          | .badInit hs => [{ headers := hs, content := [], spilled := false }]
+          | .inherited hs => [{ headers := hs, content := [], spilled := false }])
         let ps := parts.map fun p =>
           let i := partInfo p.headers
           s!" P {optHex i.name} {optHex i.filename} {Proto.hex i.ctype} {if p.spilled then 1 else 0} {Proto.hex p.content}" ++
